@@ -22,6 +22,7 @@ type RefAVP struct {
 	Group  []RefAVP // when non-nil, Data is the encoding of Group
 	// DeclLen overrides the declared length when non-zero (malformed input).
 	DeclLen int
+	DeclSet bool // DeclLen applies even when it is 0
 }
 
 // RefMsg is a Diameter message as the harness builds it.
@@ -59,7 +60,7 @@ func (a RefAVP) Bytes() []byte {
 	binary.BigEndian.PutUint32(b[0:4], a.Code)
 	b[4] = a.Flags
 	dl := l
-	if a.DeclLen != 0 {
+	if a.DeclLen != 0 || a.DeclSet {
 		dl = a.DeclLen
 	}
 	put24(b[5:8], dl)
